@@ -167,8 +167,18 @@ pub fn thrift_docs() -> Vec<SDoc> {
                 kind: DeclKind::Struct(vec![fd(1, "a", Default, STy::I32, Lit::Int(7)), f(2, "b", Optional, STy::String), fd(3, "c", Required, STy::String, Lit::Str("cc".into()))]),
             },
             Decl {
+                name: "Camel".into(),
+                kind: DeclKind::Struct(vec![f(1, "userName", Default, STy::String), f(2, "retryCount", Optional, STy::I32), f(3, "plain", Default, STy::I32), f(4, "HTTPCode", Default, STy::I16)]),
+            },
+            Decl {
                 name: "Defaults".into(),
                 kind: DeclKind::Struct(vec![
+                    // literal keys are IDL names, not Rust names; repeated list elements stay repeated
+                    fd(35, "camel", Default, named(0, "Camel"), Lit::Map(vec![(Lit::Str("userName".into()), Lit::Str("bob".into())), (Lit::Str("retryCount".into()), Lit::Int(3)), (Lit::Str("plain".into()), Lit::Int(7)), (Lit::Str("HTTPCode".into()), Lit::Int(404))])),
+                    fd(36, "dup", Default, list(STy::I32), Lit::List(vec![Lit::Int(1), Lit::Int(1), Lit::Int(2), Lit::Int(1)])),
+                    fd(37, "dups", Optional, list(STy::String), Lit::List(vec![Lit::Str("a".into()), Lit::Str("b".into()), Lit::Str("a".into())])),
+                    fd(38, "bools", Default, list(STy::Bool), Lit::List(vec![Lit::Int(1), Lit::Int(0), Lit::Int(1)])),
+                    fd(39, "ml", Default, map(STy::String, list(STy::I32)), Lit::Map(vec![(Lit::Str("k".into()), Lit::List(vec![Lit::Int(5), Lit::Int(5)]))])),
                     fd(1, "i_opt", Optional, STy::I32, Lit::Int(-5)),
                     fd(2, "i_def", Default, STy::I32, Lit::Int(123456)),
                     fd(3, "i_req", Required, STy::I32, Lit::Int(3)),
@@ -210,7 +220,65 @@ pub fn thrift_docs() -> Vec<SDoc> {
         ],
     };
     let doc1 = SDoc { files: vec![dfile] };
-    vec![doc0, doc1]
+
+    // ---- document 2: two files whose namespaces differ in the first segment and agree in the
+    // last one; typedefs of enums, of typedefs and of structs in field, element, key and value
+    // position; recursion that passes through a typedef
+    let model = SFile {
+        stem: "kmodel".into(),
+        namespace: vec!["base".into(), "model".into()],
+        includes: vec![],
+        decls: vec![
+            Decl { name: "Tag".into(), kind: DeclKind::Enum(vec![("A".into(), 1), ("B".into(), 5)]) },
+            Decl { name: "Count".into(), kind: DeclKind::Typedef(STy::I32) },
+            Decl { name: "Meta".into(), kind: DeclKind::Struct(vec![f(1, "id", Default, STy::String), f(2, "tag", Optional, named(1, "Tag"))]) },
+        ],
+    };
+    let shop = SFile {
+        stem: "kshop".into(),
+        namespace: vec!["shop".into(), "model".into()],
+        includes: vec![1],
+        decls: vec![
+            Decl { name: "TagT".into(), kind: DeclKind::Typedef(named(1, "Tag")) },
+            Decl { name: "TagAlias".into(), kind: DeclKind::Typedef(named(0, "TagT")) },
+            Decl { name: "Count2".into(), kind: DeclKind::Typedef(named(1, "Count")) },
+            Decl { name: "Flag".into(), kind: DeclKind::Typedef(STy::Bool) },
+            Decl { name: "Text".into(), kind: DeclKind::Typedef(STy::String) },
+            Decl { name: "NodeRef".into(), kind: DeclKind::Typedef(named(0, "Link")) },
+            Decl { name: "MetaT".into(), kind: DeclKind::Typedef(named(1, "Meta")) },
+            Decl {
+                name: "Link".into(),
+                kind: DeclKind::Struct(vec![f(1, "v", Default, STy::I32), f(2, "next", Optional, named(0, "NodeRef")), f(3, "kids", Default, list(named(0, "NodeRef")))]),
+            },
+            Decl {
+                name: "Order".into(),
+                kind: DeclKind::Struct(vec![
+                    f(1, "meta", Default, named(1, "Meta")),
+                    f(2, "tag", Default, named(0, "TagT")),
+                    f(3, "tag2", Optional, named(0, "TagAlias")),
+                    f(4, "n", Required, named(0, "Count2")),
+                    f(5, "m", Default, map(named(0, "Count2"), named(0, "TagT"))),
+                    f(6, "root", Optional, named(0, "Link")),
+                    f(7, "flag", Default, named(0, "Flag")),
+                    f(8, "flags", Default, list(named(0, "Flag"))),
+                    f(9, "text", Optional, named(0, "Text")),
+                    f(10, "meta_t", Optional, named(0, "MetaT")),
+                    f(11, "tags", Default, set(named(0, "TagAlias"))),
+                    f(300, "far", Default, named(0, "Flag")),
+                ]),
+            },
+            Decl {
+                name: "Pick".into(),
+                kind: DeclKind::Union(vec![f(1, "t", Default, named(0, "TagAlias")), f(2, "f", Default, named(0, "Flag")), f(3, "c", Default, named(0, "Count2")), f(4, "m", Default, named(0, "MetaT"))]),
+            },
+            Decl {
+                name: "Shop".into(),
+                kind: DeclKind::Service(vec![Method { name: "place".into(), oneway: false, ret: Some(named(0, "TagT")), args: vec![f(1, "o", Default, named(0, "Order")), f(2, "t", Default, named(0, "TagAlias")), f(3, "f", Default, named(0, "Flag"))], throws: vec![] }], None),
+            },
+        ],
+    };
+    let doc2 = SDoc { files: vec![shop, model] };
+    vec![doc0, doc1, doc2]
 }
 
 /// Side-stream documents: each exercises exactly one known-finding class; (finding key, doc).
